@@ -1,6 +1,7 @@
 package gofakes3
 
 import (
+	"context"
 	"encoding/base64"
 	"encoding/hex"
 	"encoding/xml"
@@ -116,6 +117,18 @@ func (g *GoFakeS3) timeSkewMiddleware(handler http.Handler) http.Handler {
 	})
 }
 
+// hostStyleKey marks, in the request context, a request whose bucket was taken
+// from the Host header by one of the host-bucket middlewares.
+type hostStyleKey struct{}
+
+func withHostStyle(rq *http.Request) *http.Request {
+	return rq.WithContext(context.WithValue(rq.Context(), hostStyleKey{}, true))
+}
+
+func isHostStyle(rq *http.Request) bool {
+	return rq.Context().Value(hostStyleKey{}) != nil
+}
+
 // hostBucketMiddleware forces the server to use VirtualHost-style bucket URLs:
 // https://docs.aws.amazon.com/AmazonS3/latest/dev/UsingBucket.html
 func (g *GoFakeS3) hostBucketMiddleware(handler http.Handler) http.Handler {
@@ -130,7 +143,7 @@ func (g *GoFakeS3) hostBucketMiddleware(handler http.Handler) http.Handler {
 		}
 		g.log.Print(LogInfo, p, "=>", rq.URL)
 
-		handler.ServeHTTP(w, rq)
+		handler.ServeHTTP(w, withHostStyle(rq))
 	})
 }
 
@@ -169,7 +182,7 @@ func (g *GoFakeS3) hostBucketBaseMiddleware(handler http.Handler) http.Handler {
 		}
 		g.log.Print(LogInfo, p, "=>", rq.URL)
 
-		handler.ServeHTTP(w, rq)
+		handler.ServeHTTP(w, withHostStyle(rq))
 	})
 }
 
@@ -1005,8 +1018,11 @@ func (g *GoFakeS3) completeMultipartUpload(bucket, object string, uploadID Uploa
 		protocol = "https"
 	}
 
+	// The location addresses the object the way this request addressed the
+	// upload: host-style if the bucket was taken from the Host header (which
+	// the list of host bases decides per request), path-style otherwise.
 	var location string
-	if g.hostBucket {
+	if isHostStyle(r) {
 		location = fmt.Sprintf("%s://%s/%s", protocol, r.Host, object)
 	} else {
 		location = fmt.Sprintf("%s://%s/%s/%s", protocol, r.Host, bucket, object)
